@@ -10,14 +10,15 @@ RULE = ('case = reg.run <big-endian?> <areas> <initial words> <entries> <ops>: a
         'uninitialised), for get the exact code, type and value, and a dump of every word of every area plus the touched flags.  C01 cases: every type x both byte orders x memory/callback backing x '
         'every constraint kind with bounds at type min/max/0; values: exhaustive for 16-bit types (thorough) / stride (quick), boundaries +-1 of each bound, float classes (zeros, subnormals, '
         'infinities, quiet and signalling NaNs), random; checked and unchecked set, wrongly typed values, handles 0..entries+2 and 2^32-1.  Non-trivial: every case.')
-TRUSTED_BASE = TB_COMMON + ['Model/RegTable.v hand-written from src/registers/core.c; float comparison and isnormal modelled on IEEE-754 bit patterns; tie = correspondence']
+TRUSTED_BASE = TB_COMMON + ['Model/RegTable.v hand-written from src/registers/core.c; float comparison and isnormal modelled on IEEE-754 bit patterns and PROVED equal to the comparison / classification of Flocq 4 formalisation of IEEE-754 binary32 / binary64 (Proof/FloatOrder.v); tie = correspondence',
+                            'the corollaries C01_float32/64_order_is_Bcompare (Flocq validated numbers b32_of_bits / b64_of_bits) depend on the standard-library axioms ClassicalDedekindReals.sig_not_dec, ClassicalDedekindReals.sig_forall_dec, FunctionalExtensionality.functional_extensionality_dep, Classical_Prop.classic (brought in by Flocq validity proofs over the reals); every other theorem is closed under the global context']
 ASSUMPTIONS = ['validator callbacks are pure functions of the value', 'custom area callbacks behave like memory (succeed and store)',
                'register_set_unsafe with a wrongly typed value is outside the statement (the C serialiser asserts)']
 EXHAUSTIVE = {'quick': False, 'thorough': False}
 TECHNIQUE = 'Coq proof (set/get round trip, serialisation round trip in both byte orders, refusal conditions, frame) + correspondence over types x orders x backings x constraints'
 LEVEL_TEXT = ('Properties_C01.v: a successful typed set followed by get returns the identical value; the backing words are the value in the table byte order and no other word changes; a checked set is refused '
-              'exactly for type mismatch, constraint violation, missing write callback or non-finite/subnormal float, NOENTRY exactly for a bad handle (also unchecked); refused sets change nothing.')
-LEVEL_NOTE = 'Trusted: Coq kernel; hand model of registers/core.c (correspondence-tested); IEEE-754 comparisons on bit patterns. No axioms.'
+              'exactly for type mismatch, constraint violation, missing write callback or non-finite/subnormal float, NOENTRY exactly for a bad handle (also unchecked); refused sets change nothing.  The float order used by the constraints and the zero/normal classification are proved to be those of IEEE-754 as formalised by Flocq (every pair of bit patterns, NaN/-0/infinities/subnormals included).')
+LEVEL_NOTE = 'Trusted: Coq kernel; hand model of registers/core.c (correspondence-tested); IEEE-754 comparisons on bit patterns, proved equal to Flocq. Axioms: none, except the four standard-library axioms (classic, functional_extensionality_dep, sig_not_dec, sig_forall_dec) under the two Bcompare corollaries.'
 
 def gen(rng, tier):
     big = tier == 'thorough'
